@@ -190,3 +190,32 @@ package atree
 //@   ensures[C03 C17] err == nil ==> sto[mhdrOf(r.root).slabID] == r.root && has(stored, r.root)
 //@   ensures[C17] err != nil ==> r == nil
 //@   modifies basicDigesterBuilder.k0, basicDigesterBuilder.k1, ghost.sto, ghost.stored, ghost.touched, alloc
+
+//@ # ---------------------------------------------------------------- array.go / array_conversion.go: construction (C17)
+
+//@ func NewArray(storage, address, typeInfo) (a, err)  serves C03 C17
+//@   requires storage != nil
+//@   ensures err == nil ==> a != nil && fresh(a) && a.Storage == storage && a.root != nil && is(a.root, *ArrayDataSlab) && fresh(a.root) &&
+//@        wfADS(as(a.root, *ArrayDataSlab)) && len(as(a.root, *ArrayDataSlab).elements) == 0 && as(a.root, *ArrayDataSlab).header.size == 5 &&
+//@        !as(a.root, *ArrayDataSlab).inlined && as(a.root, *ArrayDataSlab).extraData != nil && as(a.root, *ArrayDataSlab).next == SlabIDUndefined &&
+//@        as(a.root, *ArrayDataSlab).header.slabID.address == address
+//@   ensures[C03] err == nil ==> sto[as(a.root, *ArrayDataSlab).header.slabID] == a.root && has(stored, a.root)
+//@   ensures err != nil ==> a == nil && categorised(err)
+//@   modifies ghost.sto, ghost.stored, ghost.touched, alloc
+
+//@ # single-slab construction from a prepared element list: only offered when the resulting root slab is within the slab size limit
+//@ # (the structure must be valid exactly as if built by individual operations: a root leaf never exceeds maxThreshold)
+//@ func newArrayWithElements(storage, address, typeInfo, elements, elementSize) (a, err)  serves C05 C06 C17
+//@   requires storage != nil && len(elements) <= 4294967295 && (forall k :: 0 <= k && k < len(elements) ==> elements[k] != nil)
+//@   requires elementSize == sum(bs, elements, len(elements))
+//@   requires[C05] 5 + elementSize <= maxThreshold
+//@   ensures[C06 C17] err == nil ==> a != nil && is(a.root, *ArrayDataSlab) && wfADS(as(a.root, *ArrayDataSlab)) && as(a.root, *ArrayDataSlab).elements == elements &&
+//@        as(a.root, *ArrayDataSlab).header.size == 5 + elementSize && as(a.root, *ArrayDataSlab).header.size <= maxThreshold
+//@   ensures[C03] err == nil ==> sto[as(a.root, *ArrayDataSlab).header.slabID] == a.root && has(stored, a.root)
+//@   ensures err != nil ==> a == nil
+//@   modifies ghost.sto, ghost.stored, ghost.touched, alloc
+
+//@ func ByteSliceToByteArray(storage, address, typeInfo, data, estimatedByteStorableSize) (a, err)  serves C05 C17
+//@   requires storage != nil
+//@   modifies heap, ghost.sto, ghost.stored, ghost.touched, ghost.notified, alloc
+//@   loop 1: invariant 0 <= i && i <= len(data) && len(elements) == len(data) && elementSize == sum(bs, elements, i) && (forall k :: 0 <= k && k < i ==> elements[k] != nil)
